@@ -2,6 +2,7 @@
 import SPProofs.Card.Bits
 
 namespace SPModel
+open Builder Card
 
 /-- A list of gate items defining `n+1, n+2, …` in order is a chain. -/
 theorem Chain.ofDefs : ∀ (its : List Item) (n : Nat),
